@@ -53,23 +53,31 @@ def bumpLogBlock : Nat := 15
 def bumpBlockSize : Nat := 32768
 def bumpBlockMask : Nat := bumpBlockSize - 1
 
-/-- `let block_size = (size + BLOCK_MASK) & (!BLOCK_MASK);` (checked add in debug) -/
-def acquireBlockSize (debug : Bool) (size : Nat) : Option Nat :=
-  match cadd debug size bumpBlockMask with
+/-- `(size + mask) & !mask` (checked add in debug) -/
+def roundUpMask (debug : Bool) (mask size : Nat) : Option Nat :=
+  match cadd debug size mask with
   | none => none
-  | some s => some (s &&& wnot bumpBlockMask)
+  | some s => some (s &&& wnot mask)
+
+/-- `let block_size = (size + BLOCK_MASK) & (!BLOCK_MASK);` -/
+def acquireBlockSize (debug : Bool) (size : Nat) : Option Nat := roundUpMask debug bumpBlockMask size
+
+/-- `acquire_block` for a block mask `mask` (generic so that proofs never compute with the literal):
+`block_size = (size + mask) & !mask; set_limit(start, start + block_size); self.alloc(size, align, offset)` -/
+def acquireBlockWith (vm : VMConsts) (debug : Bool) (mask size align offset start : Nat) : Outcome :=
+  match roundUpMask debug mask size with
+  | none => .panic
+  | some blockSize =>
+    match cadd debug start blockSize with
+    | none => .panic
+    | some lim => bumpAllocAligned vm debug ⟨start, lim⟩ size align offset
 
 /-- `acquire_block(size, align, offset, stress_test = false)` once `space.acquire` has returned the
 non-zero address `start`: `set_limit(start, start + block_size); self.alloc(size, align, offset)`.
 `slow` = the request did not fit the block that was acquired *for it*: `alloc` calls `alloc_slow`
 again, which acquires (and abandons) another block. -/
 def acquireBlock (vm : VMConsts) (debug : Bool) (size align offset start : Nat) : Outcome :=
-  match acquireBlockSize debug size with
-  | none => .panic
-  | some blockSize =>
-    match cadd debug start blockSize with
-    | none => .panic
-    | some lim => bumpAllocAligned vm debug ⟨start, lim⟩ size align offset
+  acquireBlockWith vm debug bumpBlockMask size align offset start
 
 /-- `alloc_slow_once`: `pages = bytes_to_pages_up(get_maximum_aligned_size::<VM>(size, align))` -/
 def losPages (vm : VMConsts) (debug : Bool) (size align : Nat) : Option Nat :=
